@@ -394,7 +394,7 @@ def main(argv=None):
             ck.broken.append("Print Assumptions pass failed on Props/C20Text.v")
     have_driver = ck.driver()
     # second extracted model (round 2): _comment_out_toml on the text, Model/ConfigText.v
-    have_text_driver, out = common.build_driver("C20text", ck.log, "ExC20Text")
+    have_text_driver, out = common.build_driver("C20Text", ck.log, "ExC20Text")
     if not have_text_driver:
         ck.broken.append("text model no longer extracts/compiles: " + out[-300:])
     text_cases = {}      # text -> replay
@@ -635,7 +635,7 @@ def main(argv=None):
                     text_cases[t] = (impl.comment_out(t), {"text": t, "call": "aw_core.config._comment_out_toml(text)"})
     if have_text_driver and text_cases:
         texts = list(text_cases)
-        res = common.run_driver("C20text", [sx([ord(c) for c in t]) for t in texts])
+        res = common.run_driver("C20Text", [sx([ord(c) for c in t]) for t in texts])
         for t, mo in zip(texts, res):
             commented, replay = text_cases[t]
             ck.count("comment_out on the text: model run")
